@@ -81,16 +81,10 @@ Definition tainted (g : dag) (keys imm : list nat) : list nat := taint_marks key
     - every id is in range, no record for the root, no empty replacement list;
     - every replacement target is visible (CommitBuilder::write makes it a head);
     - the immutable set is closed under ancestors;
-    - the dependency relation of order_commits_for_rebase (parents to be rebased, and direct
-      replacements of rewritten parents that are to be rebased) is acyclic, i.e. no commit is asked
-      to be rebased onto its own descendant. *)
-Definition deps_full (G : graph) pm (T : list nat) (x : nat) : list nat :=
-  flat_map (fun p =>
-      (match pm_get pm p with
-       | Some r => filter (fun t => memn t T) (new_parent_ids r)
-       | None => []
-       end) ++ (if memn p T then [p] else []))
-    (c_parents (getc G x)).
+    - the dependency relation of order_commits_for_rebase (parents to be rebased, and the
+      to-be-rebased commits reached by following the replacements of a parent) is acyclic, i.e. no
+      commit is asked to be rebased onto its own descendant. *)
+Definition deps_full (G : graph) pm (T : list nat) (x : nat) : list nat := oc_deps G pm T [] x.
 
 Definition dom_ok (s : state) (o : rebase_opts) : bool :=
   let G := s_g s in
@@ -109,8 +103,29 @@ Definition dom_ok (s : state) (o : rebase_opts) : bool :=
      | _ => false
      end.
 
+(** ** Everything reachable from [p] through the replacement records (any kind), by a worklist
+    with a seen set; [None] if the fuel does not suffice (never for [repl_fuel]). *)
+Fixpoint clos (fuel : nat) (pm : list (nat * rewrite)) (stack seen pushed : list nat)
+  : option (list nat * list nat) :=
+  match fuel with
+  | O => None
+  | S f =>
+      match stack with
+      | [] => Some (seen, pushed)
+      | id :: rest =>
+          if memn id seen then clos f pm rest seen pushed
+          else
+            let ts := match pm_get pm id with Some r => new_parent_ids r | None => [] end in
+            clos f pm (ts ++ rest) (id :: seen) (ts ++ pushed)
+      end
+  end.
+Definition repl_closure (pm : list (nat * rewrite)) (p : nat) : option (list nat) :=
+  match clos (repl_fuel pm) pm [p] [] [] with Some (_, pushed) => Some pushed | None => None end.
+
 (** ** The processing order respects the dependencies (boolean form of [Proofs.C11Loop.valid_from]):
-    checked per case on the order the model computes with the implementation's algorithm. *)
+    a parent that is to be rebased, and every to-be-rebased commit reachable from a parent through
+    the replacement records, was processed before. Checked per case on the order the model
+    computes with the implementation's algorithm. *)
 Fixpoint valid_fromb (G0 : graph) (pm0 : list (nat * rewrite)) (T done order : list nat) : bool :=
   match order with
   | [] => true
@@ -118,9 +133,9 @@ Fixpoint valid_fromb (G0 : graph) (pm0 : list (nat * rewrite)) (T done order : l
       memn x T && negb (memn x done)
       && forallb (fun p =>
            (negb (memn p T) || memn p done)
-           && match pm_get pm0 p with
-              | Some r => forallb (fun t' => negb (memn t' T) || memn t' done) (new_parent_ids r)
-              | None => true
+           && match repl_closure pm0 p with
+              | Some cl => forallb (fun t' => negb (memn t' T) || memn t' done) cl
+              | None => false
               end) (c_parents (getc G0 x))
       && valid_fromb G0 pm0 T (done ++ [x]) t
   end.
@@ -131,12 +146,12 @@ Definition order_valid (s : state) (o : rebase_opts) : bool :=
   | _ => false
   end.
 
-(** ** Known-finding class F5 ("replacement-pending-rebase"): a commit [x] that is to be rebased
-    has a rewritten/abandoned parent [p] whose direct replacement [t] is itself a
-    rewritten/abandoned key of parent_mapping, and following [t]'s replacements leads to a commit
-    that is itself still to be rebased. order_commits_for_rebase looks one replacement level deep
-    only, so [x] may be rebased before that commit. *)
-Definition known_F5_state (s : state) (o : rebase_opts) : bool :=
+(** ** The class of the former finding F5 (repaired in /repo by ad3bc19; kept as a definition for
+    the refutation of the old ordering): a commit [x] that is to be rebased has a
+    rewritten/abandoned parent [p] whose direct replacement [t] is itself a rewritten/abandoned key
+    of parent_mapping, and following [t]'s replacements leads to a commit that is itself still to be
+    rebased. The old order_commits_for_rebase looked one replacement level deep only. *)
+Definition f5_class_state (s : state) (o : rebase_opts) : bool :=
   let G := s_g s in
   let pm := s_pm s in
   let nd := nd_keys pm in
@@ -291,9 +306,6 @@ Definition okb (c : case) : bool :=
    | None => true
    end).
 
-Definition known_F5 (c : case) : bool :=
-  N.eqb (k_outcome c) 0 &&
-  match case_parts c with Some (s0, o, _) => known_F5_state s0 o | None => false end.
 Definition known_wc_root (c : case) : bool :=
   N.eqb (k_outcome c) 2 &&
   match case_parts c with Some (s0, o, _) => known_wc_root_state s0 o | None => false end.
@@ -314,7 +326,7 @@ Definition check_case (c : case) : N :=
   let corr_order :=
     negb (in_domain c) ||
     match case_parts c with Some (s0, o, _) => order_valid s0 o | None => true end in
-  verdict (corr_views && corr_out && corr_graph && corr_order) ok (negb ok && (known_F5 c || known_wc_root c))
+  verdict (corr_views && corr_out && corr_graph && corr_order) ok (negb ok && known_wc_root c)
           (if negb corr_out then 1 else if negb corr_views then 2 else if negb corr_graph then 3
            else if negb corr_order then 5
            else match case_parts c with
